@@ -26,6 +26,9 @@ ASSUMPTIONS = ['a negative or unrepresentable dynamic length is reported as stac
                'SVM and reference model as for C01/C02']
 
 DIV_JOBS = [(op, t, d) for op in ('/', '%', '/=', '%=') for t in ('int', 'byte') for d in (0, 1, -1, 2)]
+# run-time dividend, divisor known at compile time (literal, folded expression, const variable, const global)
+DIV_JOBS += [(op, 'const:' + how, d) for op in ('/', '%', '/=', '%=', 'elem/=', 'elem%=')
+             for how in ('literal', 'folded', 'constvar', 'constglobal') for d in (0, 3)]
 STORAGES = ('literal', 'dynamic', 'gliteral', 'gdynamic', 'param', 'argv', 'const', 'alias')
 IDX_JOBS = [(acc, el, st, ix) for acc in ('read', 'write', 'aug') for el in ('int', 'byte', 'bool', 'string')
             for st in STORAGES for ix in ('len-1', 'len', '-1', '0', 'max', 'min', 'len+1')
@@ -35,7 +38,9 @@ IDX_JOBS = [(acc, el, st, ix) for acc in ('read', 'write', 'aug') for el in ('in
 LEN_JOBS = [(el, n, where) for el in ('int', 'byte', 'bool', 'string')
             for n in ('-1', '-7', '-8', '0', '1', 'maxlen', 'maxlen+1', 'min')
             for where in ('local', 'callee', 'loop')]
-NLP_JOBS = [(shape, follow, kind) for shape in ('direct', 'in_for', 'in_while', 'in_if', 'unreachable', 'none')
+NLP_JOBS = [(shape, follow, kind) for shape in ('direct', 'in_for', 'in_while', 'in_if', 'in_else', 'in_elif',
+                                                 'in_block', 'in_for_if', 'in_while_else', 'after_return',
+                                                 'unreachable', 'none')
             for follow in ('defeat', 'averted', 'nodefeat') for kind in ('undo', 'stop')]
 N_FIXED = len(DIV_JOBS) + len(IDX_JOBS) + len(LEN_JOBS) + len(NLP_JOBS)
 TIERS = {
@@ -48,7 +53,33 @@ def W_of(idx):
     return (2, 3, 4, 8)[idx % 4]
 
 
+def const_div_prog(op, how, d):
+    glob = []
+    pre = []
+    if how == 'literal':
+        dz = I(d)
+    elif how == 'folded':
+        dz = bin_('-', I(d + 2), I(2))
+    elif how == 'constvar':
+        pre.append(decl('int', 'scale', I(d), True))
+        dz = V('scale')
+    else:
+        glob.append(decl('int', 'scale', I(d), True))
+        dz = V('scale')
+    body = [write(S('a'))] + pre
+    if op in ('/', '%'):
+        body += [write(bin_(op, V('x'), dz)), write(S('b'))]
+    elif op in ('/=', '%='):
+        body += [decl('int', 'acc', V('x')), aug(op[0], 'acc', dz), write(V('acc')), write(S('b'))]
+    else:
+        body += [decl(arr('int'), 'cells', ('arr', (V('x'), I(5))), True), aug(op[4], idx('cells', I(0)), dz),
+                 write(idx('cells', I(0))), write(S('b'))]
+    return prog(glob, [func('empty', '@is_you', [('int', 'x'), ('int', 'z')], *body)]), ['77', '9']
+
+
 def div_prog(op, t, d):
+    if t.startswith('const:'):
+        return const_div_prog(op, t[6:], d)
     body = [write(S('a'))]
     if t == 'byte':
         body.append(decl('byte', 'dv', is_(V('z'), 'byte')))
@@ -165,6 +196,15 @@ def nlp_prog(shape, follow, kind):
         'in_for': [for_up('k', I(0), I(1), pre)],
         'in_while': [decl('int', 'n', I(1)), while_(bin_('>', V('n'), I(0)), aug('-', 'n', I(1)), pre)],
         'in_if': [if_(bin_('>=', V('a'), I(0)), block(pre))],
+        'in_else': [if_(bin_('<', V('a'), I(0)), block(write(S('n'))), block(pre))],
+        'in_elif': [if_(bin_('<', V('a'), I(0)), block(write(S('n'))),
+                        block(if_(bin_('==', V('a'), I(99)), block(write(S('m'))), block(pre))))],
+        'in_block': [block(block(pre))],
+        'in_for_if': [for_up('k', I(0), I(2), if_(bin_('==', V('k'), I(1)), block(pre)))],
+        'in_while_else': [decl('int', 'n', I(1)),
+                          while_(bin_('>', V('n'), I(0)), aug('-', 'n', I(1)),
+                                 if_(bin_('>', V('n'), I(5)), block(write(S('x'))), block(pre)))],
+        'after_return': [if_(bin_('>', V('a'), I(100)), block(ret())), pre],
         'unreachable': [if_(B(False), block(preempt()))],
         'none': [],
     }[shape]
